@@ -133,6 +133,9 @@ def shard(ctx):
         else:
             kind, text = 'grammar', hostile.decorate(rng, gen.text())
         check_text(rec, kind, text, stream=(i % 5 == 0))
+        if i % 300 == 150:
+            check_text(rec, 'longtoken', hostile.long_token(rng),
+                       stream=(i % 600 == 150))
         if i % 1500 == 700:
             check_text(rec, 'bulk', hostile.bulk_statement(rng))
         elif i % 1500 == 1300:
